@@ -21,17 +21,24 @@
               C04_error_clean_except_unexportable (exception: a stored value that cannot be exported; repaired for
               absent optional members by fix 45926fd), C04_error_clean_exportable, C04_success_announced
    (history)  lifted over every request sequence from every cache whose values lie in their value sets
-              -- C04_history_invariant, C04_history_write_values, C04_history_call_values *)
+              -- C04_history_invariant, C04_history_write_values, C04_history_call_values
+   (current)  "satisfies the module's CURRENT dynamic limits and check hooks": with any number of threads calling write
+              wrappers of the module (connection threads through the dispatcher, internal threads directly), under every
+              schedule, the check chain passes on the cache of the very moment the driver is invoked
+              -- C04_limits_current_at_driver_call, C04_wrapper_exclusive, C04_cache_changed_by_lock_owner_only; the
+              obligation on the source (checks inside `with self.accessLock:`) is wrapper_body_under_access_lock, and
+              C04_refuted_checks_outside_lock shows the statement fails for the variant with the checks before the lock *)
 From Coq Require Import ZArith NArith Bool List.
 Import ListNotations.
 Require Import FV.Gen.C04 FV.Base.F64 FV.Base.PyVal FV.C01.Model FV.C01.Lemmas.
-Require Import FV.C04.Model FV.C04.Lemmas FV.C04.LemmasHist.
+Require Import FV.C04.Model FV.C04.Lemmas FV.C04.LemmasHist FV.C04.ConcModel FV.C04.LemmasConc FV.C04.LemmasSolo FV.C04.Refuted.
 
 (* obligations on the facts regenerated from /repo (Gen/C04.v): the order of the tests in _setParameterValue /
    _execute_command / Command.do / the write wrapper / checkLimits, the export map, the error mapping of handle() *)
 Theorem C04_source_facts :
   set_parameter_order = true /\ execute_command_order = true /\ handle_change_shape = true /\ handle_do_shape = true /\
-  command_do_shape = true /\ write_wrapper_shape = true /\ check_funcs_from_mro = true /\ check_limits_shape = true /\
+  command_do_shape = true /\ write_wrapper_shape = true /\ wrapper_body_under_access_lock = true /\
+  check_funcs_from_mro = true /\ check_limits_shape = true /\
   export_map_shape = true /\ announce_store_then_emit = true /\ handler_error_mapping = true /\ error_class_names = true.
 Proof. repeat split; reflexivity. Qed.
 
@@ -230,6 +237,99 @@ Example C04_demo_both_kinds :
     = Some ProtocolError.
 Proof. vm_compute. repeat split. Qed.
 
+(* ------------------------------------------------------------------ concurrent callers of the write wrappers *)
+(* progs: ANY number of threads, each with ANY sequence of operations (direct calls write_<p>(v) of any parameter with
+   any value and driver behaviour, change requests with any payload); sched: ANY schedule (a list of thread numbers; a
+   thread that is not enabled -- finished, or waiting for the accessLock -- is skipped); c0: any initial cache; hook: any
+   user check functions.  crun ... true = the transition system with validation and check loop under the accessLock
+   (source fact wrapper_body_under_access_lock).  LDrv p v nv c is emitted exactly when write_<p>(nv) is invoked, c being
+   the module's cache at that step.  Then: nv is the validated wrapper argument v, the WHOLE check chain of p passes on c
+   (meaning: C04_checks_respected), in particular the generated limit check: every existing <p>_min/_max/_limits held in
+   the cache at the moment of the driver call is respected. *)
+Theorem C04_limits_current_at_driver_call : forall E hook md c0 progs sched p v nv c,
+  In (LDrv p v nv c) (snd (crun E hook true md (cinit c0 progs) sched)) ->
+  dt_validate (p_dt p) v PNone = Ok nv /\ checks_pass hook p v c /\
+  ((forall i, In (CkUser i) (p_checks p) -> hook i v c <> HStop) -> In CkAuto (p_checks p) ->
+   limits_respected (p_name p) v c /\ not_inverted (p_name p) c).
+Proof. intros E hook md. exact (limits_current_at_driver_call E hook md). Qed.
+
+(* in every reachable state at most one thread is inside a wrapper of the module, and it owns the accessLock *)
+Theorem C04_wrapper_exclusive : forall E hook md c0 progs sched t u tht thu,
+  let st := fst (crun E hook true md (cinit c0 progs) sched) in
+  nth_error (cs_threads st) t = Some tht -> nth_error (cs_threads st) u = Some thu ->
+  in_wrapper (t_pc tht) = true -> in_wrapper (t_pc thu) = true -> t = u /\ cs_owner st = Some t.
+Proof. intros E hook md. exact (wrapper_exclusive E hook md). Qed.
+
+(* from every reachable state: a step that changes the cache is a step of the lock owner, or of a thread that found the
+   lock free (takes it, stores and releases within the step) *)
+Theorem C04_cache_changed_by_lock_owner_only : forall E hook md c0 progs sched t st' l,
+  let st := fst (crun E hook true md (cinit c0 progs) sched) in
+  cstep E hook true md st t = Some (st', l) -> cs_cache st' <> cs_cache st ->
+  cs_owner st = None \/ cs_owner st = Some t.
+Proof.
+  intros E hook md c0 progs sched t st' l. cbn zeta.
+  apply (cache_changed_by_owner E hook md). apply (crun_inv E hook md c0 progs sched).
+Qed.
+
+(* the strict run the correspondence evaluates (every observed step must be enabled) is such a run *)
+Theorem C04_followed_run_is_a_run : forall E hook inside md st sched fin ls,
+  cfollow E hook inside md st sched = Some (fin, ls) -> crun E hook inside md st sched = (fin, ls).
+Proof. intros. unfold crun. rewrite (cfollow_is_crun _ _ _ _ _ _ [] _ _ H). reflexivity. Qed.
+
+(* the concurrent layer contains the sequential model: a thread that is idle, whose next operation is a direct call
+   write_<p>(v), finds the lock free and is scheduled alone at most |check chain| + 2 times, has then finished the call,
+   and final cache, driver calls, hook calls, updates and result are exactly those of Model.write_wrapper (the function
+   C04_change_safe ... C04_history_write_values are about).  drvs_of/hooks_of/upds_of/ends_of project the labels. *)
+Theorem C04_single_thread_is_sequential_wrapper : forall E hook md st t p v d todo,
+  nth_error (cs_threads st) t = Some {| t_pc := PIdle; t_todo := TWrite p v d :: todo |} -> cs_owner st = None ->
+  exists k ls, k <= length (p_checks p) + 2 /\
+    crun E hook true md st (repeat t k) =
+      ({| cs_cache := o_cache (write_wrapper hook p v (cs_cache st) d); cs_owner := None;
+          cs_threads := set_nth t {| t_pc := PIdle; t_todo := todo |} (cs_threads st) |}, ls) /\
+    drvs_of ls = o_drv (write_wrapper hook p v (cs_cache st) d) /\
+    hooks_of ls = o_hooks (write_wrapper hook p v (cs_cache st) d) /\
+    upds_of ls = o_upd (write_wrapper hook p v (cs_cache st) d) /\
+    ends_of ls = [o_reply (write_wrapper hook p v (cs_cache st) d)].
+Proof. intros E hook md. exact (solo_is_wrapper E hook md). Qed.
+
+(* the request step of the concurrent model (pre_change) is Model.handle_change cut in front of the wrapper call *)
+Theorem C04_request_is_pre_change_then_wrapper : forall E hook md c rq,
+  handle_change E hook md c rq =
+  match pre_change E md c rq with
+  | inl e => fail c e [] []
+  | inr (p, v) => reply_export p (write_wrapper hook p v c (rq_drv rq))
+  end.
+Proof. exact handle_change_pre. Qed.
+
+(* why the source fact is an obligation: with validation and checks BEFORE the lock is taken, two threads and six steps
+   suffice for a driver invocation whose value violates the limit held in the cache at that moment *)
+Theorem C04_refuted_checks_outside_lock :
+  exists E hook md c0 progs sched p v nv c e,
+    In (LDrv p v nv c) (snd (crun E hook false md (cinit c0 progs) sched)) /\
+    In CkAuto (p_checks p) /\ check_limits (p_name p) v c = Err e.
+Proof. exact Refuted.C04_refuted_checks_outside_lock. Qed.
+
+(* non-vacuity: thread 0 handles "change m:_a 5", thread 1 calls write_a_max(4) directly; thread 1 gets the lock first:
+   the request is refused; thread 0 first: thread 1 has to wait, the driver sees 5 with a_max = 10 *)
+Definition demo_progs : list (list top) :=
+  [[TReq (chg s__a 5)]; [TWrite (p_a [CkAuto]) (PInt 3) DNone;
+                         TWrite {| p_name := s_amax; p_export := Some (95%N :: s_amax); p_dt := TInt 0 10; p_readonly := false;
+                                   p_constant := false; p_haswrite := false; p_checks := [] |} (PInt 4) DNone]].
+Definition demo_c0 : cache := [(s_a, PInt 1); (s_amax, PInt 10)].
+Example C04_demo_conc_limit_first :
+  snd (crun E0 no_hooks true demo_md (cinit demo_c0 demo_progs) [1; 1; 1; 1; 0; 0; 0]%nat) =
+  [LAcq; LAuto (PInt 3); LDrv (p_a [CkAuto]) (PInt 3) (PInt 3) demo_c0; LUpd s_a (PInt 3); LEnd None;
+   LAcq; LUpd s_amax (PInt 4); LEnd None;
+   LReq; LAcq; LAuto (PInt 5); LEnd (Some RangeError)].
+Proof. vm_compute. reflexivity. Qed.
+Example C04_demo_conc_request_first :
+  snd (crun E0 no_hooks true demo_md (cinit demo_c0 demo_progs) [0; 0; 1; 0; 1; 0; 1; 1; 1; 1]%nat) =
+  [LReq; LAcq; LAuto (PInt 5); LDrv (p_a [CkAuto]) (PInt 5) (PInt 5) demo_c0; LUpd s_a (PInt 5); LEnd None;
+   LAcq; LAuto (PInt 3); LDrv (p_a [CkAuto]) (PInt 3) (PInt 3) [(s_a, PInt 5); (s_amax, PInt 10)]; LUpd s_a (PInt 3); LEnd None;
+   LAcq; LUpd s_amax (PInt 4); LEnd None].
+Proof. vm_compute. reflexivity. Qed.
+
+
 Print Assumptions C04_source_facts.
 Print Assumptions C04_change_safe.
 Print Assumptions C04_checks_respected.
@@ -249,3 +349,10 @@ Print Assumptions C04_do_clean.
 Print Assumptions C04_history_invariant.
 Print Assumptions C04_history_write_values.
 Print Assumptions C04_history_call_values.
+Print Assumptions C04_limits_current_at_driver_call.
+Print Assumptions C04_wrapper_exclusive.
+Print Assumptions C04_cache_changed_by_lock_owner_only.
+Print Assumptions C04_followed_run_is_a_run.
+Print Assumptions C04_single_thread_is_sequential_wrapper.
+Print Assumptions C04_request_is_pre_change_then_wrapper.
+Print Assumptions C04_refuted_checks_outside_lock.
